@@ -21,7 +21,7 @@ from vf import graphgen  # noqa: E402
 
 NAME_SCHEMES = [["n0", "n1", "n2", "n3", "n4"], ["a", "a.b", "ab", "b.a", "b"], ["0", "x.", "a0", "00", "x"], [".", "a.", ".a", "a", ".."]]
 NAMES = sorted({n for sch in NAME_SCHEMES for n in sch})
-OUTS = {"default": None, "ab": ["a", "b"], "attr": ["name", "payload"], "none": []}
+OUTS = {"default": None, "ab": ["b", "a"], "attr": ["name", "payload"], "none": []}  # "b","a": declared order is not the sorted order
 PAYLOADS = ["p", "q"]
 RENAMERS = [("prefix", lambda n: "r." + n), ("suffix", lambda n: n + "_"), ("wrap", lambda n: f"<{n}>")]
 
@@ -244,8 +244,10 @@ class Xform(Harness):
         ch.assume(not any(nm.startswith(X + ".") for nm in names if nm != X))
         outs = spec[xi]["outputs"]
         outs = [Node.DEFAULT_OUTPUT] if outs is None else list(outs)
-        use_maps = ch.flag("use_maps")
-        leaf = (lambda o: "L" + o) if use_maps else (lambda o: o)
+        map_mode = ch.pick(3, "maps")  # 0 no maps, 1 complete output map, 2 partial output map (unmapped outputs fall back to the sink of the same name)
+        use_maps = map_mode > 0
+        mapped = set(outs) if map_mode == 1 else (set(outs[:1]) if map_mode == 2 else set())
+        leaf = lambda o: ("L" + o) if o in mapped else o  # noqa: E731
         src_name = "s1" if use_maps else "x"
         side = ch.flag("side_sink")
         ch.assume(bool(outs) or side)  # the template has at least one sink
@@ -259,10 +261,10 @@ class Xform(Harness):
             extra = [Node("side", outputs=[], payload="tside", i=mid)] if side else []
             sub = Graph(sinks + extra)
             if use_maps:
-                return sub, ({"s1": "x"} if spec[xi]["inputs"] else {}), {o: leaf(o) for o in outs}
+                return sub, ({"s1": "x"} if spec[xi]["inputs"] else {}), {o: leaf(o) for o in outs if o in mapped}
             return sub
 
-        ch.note("graph", {"names": names, "op": "expand", "expanded": X, "maps": use_maps})
+        ch.note("graph", {"names": names, "op": "expand", "expanded": X, "maps": ["none", "complete", "partial"][map_mode]})
         g2 = guarded("expand", lambda: g_expand.expand_graph(expander, g))
         got = guarded("expand-result-walk", lambda: graphgen.structure(g2))
         # expected structure
